@@ -151,8 +151,14 @@ def run(tier, seed, args):
         st2 = [progs.new(), {"op": "ext", "ns": "fx", "url": EXTNS}, {"op": "ext", "ns": "other", "url": "urn:other"}, progs.pc(ext_protos[1], 25, seed=seed),
                {"op": "finalize", "xml_replace": [[' xmlns:other="urn:other"', ''], ['<vectorChild type="Structure">', '<vectorChild type="Structure" xmlns:other="urn:other">']]}]
         cases.append(progs.prog(f"ext-records-vectorchild-declaration{i}", st2))
+    # extension records in front of / between the coordinate and index records: bounds and limits stay those of the standard records
+    cases += [p for p in progs.c14_programs(seed, "quick") if p["name"].startswith("b_ext_in_front")]
     log(f"[C18] {nins} insertions at {len(pts)} insertion points, {len(sp)} elements with foreign attributes, {len(ext_protos)} prototypes with extension records")
-    filecommon.run_programs(v, wd, exe, cases, "c18", focus=("C18", "C04", "C01", "C06"), jobs=6, batch_events=600)
+    filecommon.run_programs(v, wd, exe, cases, "c18", focus=("C18", "C04", "C01", "C06", "C14"), jobs=6, batch_events=600)
+    # the simple iterator on prototypes whose extension records carry standard local names: its view is made of the standard records
+    import c05
+    sp = [p for p in progs.c05_programs(seed, "quick") if p["name"].startswith("view_ext_standard_names")]
+    c05.run_simple(v, wd, exe, sp, "c18simple", ("C05",))
     v.add(states=v.cov.get("trace_events", 0), transitions=v.cov.get("trace_events", 0),
           rule="one case = the fully populated base file with ONE foreign-namespace element spliced in (parent = every element outside a prototype, position = first/last (quick) or every index (thorough), "
                "local name = each standard child name of that parent from the specification's schema table, or a fresh name; same type and plausible content), or foreign attributes on every element, "
